@@ -719,6 +719,10 @@ class Screen(BaseScreen, RealTerminal):
             if whitespace_at_end:
                 output.append(escape.ERASE_IN_LINE_RIGHT)
 
+        if last_charset_flag == "U":
+            # do not leave the IBM-PC font selected: the next draw_screen() starts from the normal font
+            output.append(escape.IBMPC_OFF)
+
         if canvas.cursor is not None:
             x, y = canvas.cursor
             output += [set_cursor_position(x, y), escape.SHOW_CURSOR]
